@@ -314,7 +314,7 @@ pub fn trim() {
 // ------------------------------------------------------------------------------------------------
 // string slicing
 // ------------------------------------------------------------------------------------------------
-//@harness tier=thorough optional=1 timeout=7200 desc="std.slice on a string with negative indexes (normalised against the length) never panics and yields the documented slice" bounds="s: empty or one ASCII character; from: every negative i32; to: none or every negative i32; step 1"
+//@harness tier=thorough optional=1 timeout=3600 desc="std.slice on a string with negative indexes (normalised against the length) never panics and yields the documented slice" bounds="s: empty or one ASCII character; from: every negative i32; to: none or every negative i32; step 1"
 #[kani::proof]
 #[kani::unwind(6)]
 pub fn str_slice_negative_indexes() {
@@ -349,7 +349,7 @@ pub fn str_slice_negative_indexes() {
     kani::cover!(text.n == 1 && to.is_none(), "whole one-character string reached");
 }
 
-//@harness tier=thorough optional=1 timeout=7200 desc="str[from:to:step] / std.slice on strings is the Python-style code-point slice (skip/take/step_by adaptor chain over Chars: not decided within 15 min in the quick tier)" bounds="s: every well-formed UTF-8 string of exactly 3 bytes, from/to: none or -5..=5, step 1..=3"
+//@harness tier=thorough optional=1 timeout=3600 desc="str[from:to:step] / std.slice on strings is the Python-style code-point slice (skip/take/step_by adaptor chain over Chars: not decided within 15 min in the quick tier)" bounds="s: every well-formed UTF-8 string of exactly 3 bytes, from/to: none or -5..=5, step 1..=3"
 #[kani::proof]
 #[kani::unwind(6)]
 pub fn str_slice() {
